@@ -18,3 +18,9 @@ def run_C18(rep, spec, pf, verbose=False, only=None):
     if only: cs = [c for c in cs if only in c.key]
     obls = run_go_functions(rep, spec, cs, verbose=verbose)
     return finish(rep, obls, pf, 'contracts on the real Go AST; WP by forward symbolic execution; z3/cvc5')
+
+def run_C20(rep, spec, pf, verbose=False, only=None):
+    cs = contracts_for(spec, 'C20')
+    if only: cs = [c for c in cs if only in c.key]
+    obls = run_go_functions(rep, spec, cs, verbose=verbose)
+    return finish(rep, obls, pf, 'contracts on the real Go AST; WP by forward symbolic execution; z3/cvc5')
